@@ -191,7 +191,7 @@ def build(harness_c, flavor="asan", images=(("s", "server"), ("ca", "client")), 
     sh(["gcc"] + cf + ["-no-pie", harness_c] + list(extra_srcs) +
        [os.path.join(d, "vw.o"), os.path.join(d, "explore.o"), os.path.join(d, "hash.o"),
         os.path.join(d, "forbidden.o")] + refs + imgs +
-       ["-lz", "-o", tmp])
+       ["-lz", "-lm", "-o", tmp])
     os.rename(tmp, exe)
     prune_old(6)
     return exe
